@@ -131,6 +131,26 @@ def crashed(ex):
     return sigs
 
 
+def confirmed_crashes(exe, conf, scen, exs, work, env=None, limit=12):
+    """process-level failures that REPEAT when the scenario is run again on its own (rule: repeat
+    before reporting).  Returns list of (execution, signatures, raw sanitizer text)."""
+    sdict = {str(sid): ops for sid, ops in scen}
+    out = []
+    cand = [ex for ex in exs if crashed(ex) and not (ex["end"] or {}).get("skipped")]
+    flaky = 0
+    for ex in cand[:limit]:
+        again = run_vdrv(exe, conf, [(ex["id"], sdict[ex["id"]])], work, tag="confirm", jobs=1, env=env)
+        if again and crashed(again[0]):
+            out.append((again[0], crashed(again[0]), (again[0]["end"] or {}).get("raw")))
+        else:
+            flaky += 1
+    if flaky:
+        print("NOTE %d process-level failure(s) did not repeat when the scenario was run again alone; not reported" % flaky)
+    if len(cand) > limit:
+        print("NOTE %d further failing scenarios not re-run" % (len(cand) - limit))
+    return out
+
+
 # ------------------------------------------------------------------------------------------
 # TLC
 def tlc(spec_dir, module, cfg, work, tag, workers=16, extra=None, env=None, timeout=3600, simulate=None,
@@ -320,7 +340,9 @@ class Verdict:
         self.known = {}
         self.new = []
 
-    def add(self, sig, replay_lines=None, what=""):
+    def add(self, sig, replay_lines=None, what="", raw=None):
+        if raw:
+            replay_lines = list(replay_lines or []) + ["RAW SANITIZER REPORT:"] + raw.splitlines()[:80]
         f = match_known(self.prop, sig)
         if f:
             self.known.setdefault(f["id"], [f, 0])
